@@ -59,7 +59,7 @@ def code_of(kind, ident, d):
         lines.append('lst.append(x)')
     for s in d['sends']:
         args = [repr(ev_name(s['ev']))]
-        if s['dl']:
+        if s['dl'] or (s['ev'] + s['par']) % 2 == 0:      # sometimes an explicit delay=0
             args.append('delay=%d' % s['dl'])
         if s['par']:
             args.append('v=%d' % s['par'])
@@ -89,7 +89,8 @@ def guard_of(tid, t, names):
 def cond_code(ck, owner, idx):
     if ck == 1:
         return 'c(1, %d, %d, time)' % (owner, idx)
-    return 'c(%d, %d, %d, time, __old__, len(box[0]), after(1), idle(1))' % (ck, owner, idx)
+    gen = ' and all(v >= 0 for v in lst)' if (owner + idx) % 3 == 0 else ''     # a nested scope inside a condition
+    return 'c(%d, %d, %d, time, __old__, len(box[0]), after(1), idle(1))%s' % (ck, owner, idx, gen)
 
 
 def contract_lists(owner, npre, npost, ninv):
